@@ -106,6 +106,19 @@ class Interp:
             return ESC
         if t.startswith('"'):
             return unstr(t)
+        if t == "if":
+            # an `if` expression whose branches are texts
+            c = self.cond()
+            self.eat("{")
+            a = self.text()
+            self.eat("}")
+            self.eat("else")
+            self.eat("{")
+            b = self.text()
+            self.eat("}")
+            return a if c else b
+        if t in getattr(self, "vars", {}):
+            return self.vars[t]
         if t in self.env.macros:
             self.eat("(")
             lit = self.eat()
@@ -233,6 +246,16 @@ class Interp:
                 else:
                     self.block(live and not taken)
                     taken = True
+            return
+        if t == "let":
+            # `let name = <text>;`: a local that names a text
+            self.eat()
+            name = self.eat()
+            self.eat("=")
+            if not hasattr(self, "vars"):
+                self.vars = {}
+            self.vars[name] = self.text()
+            self.eat(";")
             return
         if t == "pattern":
             self.eat()
